@@ -76,24 +76,27 @@ theorem renderRest_filter (ta : Bool) : ∀ (toks : List Tok) (p : UInt8), Class
     simp [renderRest, flat, innerWs_filter _ _ w h.1, filter_ws_nil w h.1] at ih ⊢
     exact ih
 
-theorem render_filter (tb ta : Bool) (toks : List Tok) (h : Classed toks) :
-    (render tb ta toks).filter nonWs = (flat toks).filter nonWs := by
-  cases toks with
-  | nil => rfl
-  | cons t ts =>
-    cases t with
-    | chunk c => simpa [render] using renderRest_filter ta (Tok.chunk c :: ts) 0 h
-    | ws w =>
-      have hw : ∀ b ∈ w, isWs b = true := by simp only [Classed] at h; exact h.1
-      cases ts with
-      | nil =>
-        simp only [render, flat, List.append_nil]
-        split
-        · simp [filter_ws_nil w hw]
-        · rfl
-      | cons t2 ts2 =>
-        have h2 : Classed (t2 :: ts2) := by simp only [Classed] at h; exact h.2
-        simp [render, flat, edgeWs_filter tb w hw, filter_ws_nil w hw, renderRest_filter ta (t2 :: ts2) 0 h2]
+theorem render_filter (tb ta : Bool) : ∀ (toks : List Tok), Classed toks →
+    (render tb ta toks).filter nonWs = (flat toks).filter nonWs
+  | [], _ => rfl
+  | [Tok.ws w], h => by
+    have hw : ∀ b ∈ w, isWs b = true := by simp only [Classed] at h; exact h.1
+    simp only [render, flat, List.append_nil]
+    split
+    · simp [filter_ws_nil w hw]
+    · rfl
+  | Tok.ws w :: Tok.chunk c :: ts, h => by
+    simp only [Classed] at h
+    simp [render, flat, edgeWs_filter tb w h.1, filter_ws_nil w h.1, renderRest_filter ta ts (lastByte c) h.2.2]
+  | Tok.chunk c :: ts, h => by
+    simp only [Classed] at h
+    simp [render, flat, renderRest_filter ta ts (lastByte c) h.2]
+  | Tok.ws w :: Tok.ws w2 :: ts, h => by
+    have h' := h
+    simp only [Classed] at h
+    have ih := render_filter tb ta (Tok.ws w2 :: ts) h'.2
+    simp [render, flat, edgeWs_filter tb w h.1, filter_ws_nil w h.1] at ih ⊢
+    exact ih
 
 theorem hasNL_pos (w : Bytes) (h : hasNL w = true) : 1 ≤ w.length := by
   cases w with
@@ -124,23 +127,24 @@ theorem renderRest_len (ta : Bool) : ∀ (toks : List Tok) (p : UInt8),
     simp [renderRest, flat]; omega
   | Tok.ws w :: Tok.ws w2 :: ts, p => by
     have := renderRest_len ta (Tok.ws w2 :: ts) p
-    have := innerWs_len p 0 w
+    have := innerWs_len p p w
     simp [renderRest, flat] at *; omega
 
-theorem render_len (tb ta : Bool) (toks : List Tok) : (render tb ta toks).length ≤ (flat toks).length := by
-  cases toks with
-  | nil => simp [render, flat]
-  | cons t ts =>
-    cases t with
-    | chunk c => simpa [render] using renderRest_len ta (Tok.chunk c :: ts) 0
-    | ws w =>
-      cases ts with
-      | nil =>
-        simp only [render, flat, List.append_nil]
-        split <;> simp
-      | cons t2 ts2 =>
-        have := renderRest_len ta (t2 :: ts2) 0
-        have := edgeWs_len tb w
-        simp [render, flat] at *; omega
+theorem render_len (tb ta : Bool) : ∀ (toks : List Tok), (render tb ta toks).length ≤ (flat toks).length
+  | [] => by simp [render, flat]
+  | [Tok.ws w] => by
+    simp only [render, flat, List.append_nil]
+    split <;> simp
+  | Tok.ws w :: Tok.chunk c :: ts => by
+    have := renderRest_len ta ts (lastByte c)
+    have := edgeWs_len tb w
+    simp [render, flat]; omega
+  | Tok.chunk c :: ts => by
+    have := renderRest_len ta ts (lastByte c)
+    simp [render, flat]; omega
+  | Tok.ws w :: Tok.ws w2 :: ts => by
+    have := render_len tb ta (Tok.ws w2 :: ts)
+    have := edgeWs_len tb w
+    simp [render, flat] at *; omega
 
 end SoyVerif.Props.C15
